@@ -423,3 +423,129 @@ def sim_kin(ctx):
                % form, f=f, key='rest-' + form,
                why='%s form: a body at rest does not sense exactly Earth rate and the reaction '
                    'to gravity' % form)
+
+
+# ------------------------------------------------------------------- SIM-INTEG
+class _StopEval(Exception):
+    pass
+
+
+class _IH(_KH):
+    """initial-position form: antiderivative() of an (idealised) spline is a formal integral -
+    a fresh atom whose time derivative is the integrand and whose initial value is zero."""
+
+    def __init__(self, kin):
+        _KH.__init__(self, kin)
+        self.integrals = {}      # atom -> integrand
+        self.captured = None
+
+    def attr(self, ev, base, a, node):
+        if isinstance(base, _Spl) and a == 'antiderivative':
+            def anti():
+                y = base.y
+                if not isinstance(y, Rat):
+                    raise Unsupported('antiderivative of a non-scalar spline')
+                name = 'int%d' % (len(self.integrals) + 1)
+                self.integrals[name] = y
+                self.kin.deps[name] = y
+                return _Spl(self.kin, ev.A.sym(name))
+            return anti
+        return _KH.attr(self, ev, base, a, node)
+
+    def branch(self, ev, st, env):
+        # convergence test of the fixed-point iteration (`if ...: break`): never leave early -
+        # an earlier iterate has the same form as the later ones
+        if len(st.body) == 1 and isinstance(st.body[0], ast.Break) and not st.orelse:
+            return False
+        return None
+
+    def call(self, ev, q, node, args, kwargs, env):
+        if q == 'pyins.transform.lla_to_ecef' and self.captured is None and args and \
+                isinstance(args[0], SArray):
+            self.captured = args[0]
+            raise _StopEval()
+        return _KH.call(self, ev, q, node, args, kwargs, env)
+
+
+def sim_integ(ctx):
+    ctx.rule('SIM-INTEG', 'initial-position form of generate_imu: the position is the solution of '
+             'd(lat, lon, alt)/dt = (R2D VN/rn, R2D VE/rp, -VD) from the given initial values '
+             '(antiderivatives idealised as exact integrals; latitude by Picard iteration of that '
+             'equation): the three input forms describe the same motion')
+    repo = ctx.repo
+    f = repo.function('sim.generate_imu')
+    A = Alg()
+    kin = _Kin(A, ['VN', 'VE', 'VD'])
+    h = _IH(kin)
+    ev = SymEval(repo, A, hooks=h)
+    lla0 = SArray((3,), {(i,): A.sym(n) for i, n in enumerate(['lat0', 'lon0', 'alt0'])})
+    row = lambda ns: SArray((3,), {(i,): A.sym(n) for i, n in enumerate(ns)}, None, True)
+    try:
+        ev.call_function(f, [A.sym('t'), lla0, row(['roll', 'pitch', 'heading']),
+                             row(['VN', 'VE', 'VD']), 'rate'])
+    except _StopEval:
+        pass
+    except Unsupported as e:
+        raise AnalysisError('generate_imu (initial-position form) not analysable: %s' % e)
+    ctx.need(h.captured is not None and h.captured.shape == (3,),
+             'generate_imu: position handed to lla_to_ecef not found')
+    ctx.need(len(h.integrals) >= 3, 'generate_imu: fewer than 3 antiderivatives in the '
+             'initial-position form')
+    lat, lon_i, alt = (h.captured.get((k,)) for k in range(3))
+    ev2 = SymEval(repo, A)
+    r2d = A.sym(A.R2D)
+    zero = {k: A.const(0) for k in h.integrals}
+    rate = repo.const('earth.RATE')
+
+    def radii(lat_deg, alt_):
+        rn, re, rp = ev2.call_function(repo.function('earth.principal_radii'), [lat_deg, alt_])
+        return rn, rp
+
+    # ---- altitude
+    ok = A.eq(kin.D(alt), A.neg(A.sym('VD'))) and A.eq(A.subst(alt, zero), A.sym('alt0'))
+    ctx.ob('SIM-INTEG', ok, None, 'alt = alt0 - integral(VD)', f=f, key='alt',
+           why='altitude of the initial-position form is not alt0 minus the integral of the '
+               'down velocity')
+    # ---- latitude: Picard chain
+    depth, cur, okl, why = 0, lat, True, ''
+    while True:
+        d = kin.D(cur)
+        if A.is_zero(d):
+            okl = okl and A.eq(cur, A.sym('lat0'))
+            why = why or 'the iteration does not start from the initial latitude'
+            break
+        depth += 1
+        if depth > 12:
+            okl, why = False, 'iteration chain not resolved'
+            break
+        ints = set()
+        for a_ in A.atoms_of(d):
+            ints |= ({a_} | A._nested_atoms(a_)) & set(h.integrals)
+        cands = [A.sym('lat0')] + [A.add(A.sym('lat0'), A.mul(r2d, A.sym(i_))) for i_ in sorted(ints)]
+        hit = None
+        for L in cands:
+            rn, _ = radii(L, alt)
+            if A.eq(d, A.div(A.mul(r2d, A.sym('VN')), rn)):
+                hit = L
+                break
+        if hit is None:
+            okl = False
+            why = ('the latitude rate of iterate %d is not R2D * VN / rn(previous iterate, alt)'
+                   % depth)
+            break
+        if not A.eq(A.subst(cur, zero), A.sym('lat0')):
+            okl, why = False, 'an iterate does not start at the initial latitude'
+            break
+        cur = hit
+    ctx.ob('SIM-INTEG', okl, None, 'lat: %d Picard iterate(s) of lat\' = R2D VN / rn(lat, alt) '
+           'from lat0' % depth, f=f, key='lat',
+           why='latitude of the initial-position form: %s (wrong radius, unit or integrand)' % why)
+    # ---- longitude (handed over in the inertial frame: + R2D * RATE * t)
+    _, rp = radii(lat, alt)
+    want = A.add(A.div(A.mul(r2d, A.sym('VE')), rp), A.mul(r2d, ev.global_value('pyins.earth.RATE')))
+    ok = A.eq(kin.D(lon_i), want)
+    ok0 = A.eq(A.subst(A.subst(lon_i, zero), {'t': A.const(0)}), A.sym('lon0'))
+    ctx.ob('SIM-INTEG', ok and ok0, None, "lon' = R2D VE / rp(lat, alt) with the final latitude, "
+           'from lon0 (inertial longitude = + R2D RATE t)', f=f, key='lon',
+           why='longitude of the initial-position form is not lon0 plus the integral of '
+               'R2D * VE / rp(lat, alt)')
